@@ -98,6 +98,8 @@ type c14Result struct {
 	What    string
 	Obj     map[string]any
 	Named   bool // the timeout error names the state
+	// LoadSensitive: the verdict assumes the engine was given CPU in time
+	LoadSensitive bool
 }
 
 func hasTimeout(e protocol.StateMapEntry) bool { return e.Timeout > 0 || e.TimeoutFunc != nil }
@@ -212,7 +214,30 @@ func lastTransitionAt(snap snapshot, t time.Time, start time.Time) time.Time {
 	return last
 }
 
-func runC14Case(c c14Case, probe *noiseProbe) (res c14Result) {
+// confirm re-runs a case whose verdict depends on the engine having had enough
+// CPU ("it should have acted by now"): such a verdict is only reported when
+// three consecutive attempts agree; otherwise the case is discarded. Verdicts
+// that are sound under any load (a timeout before T, a timeout where no timer
+// may exist, DoneChan not closing) are reported at once.
+func confirm(first c14Result, again func() c14Result) c14Result {
+	if first.Verdict != "violation" || !first.LoadSensitive {
+		return first
+	}
+	for i := 0; i < 2; i++ {
+		r := again()
+		if r.Verdict != "violation" || r.Key != first.Key {
+			return c14Result{Verdict: "discard", Why: "not_reproduced", What: first.What}
+		}
+	}
+	first.What += " (reproduced in 3 consecutive attempts)"
+	return first
+}
+
+func runC14Case(c c14Case, probe *noiseProbe) c14Result {
+	return confirm(attemptC14Case(c, probe), func() c14Result { return attemptC14Case(c, probe) })
+}
+
+func attemptC14Case(c c14Case, probe *noiseProbe) (res c14Result) {
 	sp := c.Spec
 	var sm protocol.StateMap
 	switch c.Kind {
@@ -371,8 +396,9 @@ func runC14Case(c c14Case, probe *noiseProbe) (res c14Result) {
 				continue
 			}
 			// the holder moved in time; did the engine have a calm machine?
-			if movedAt.Sub(enteredAt) <= c14T*6/10 && samples > 0 && late <= c14T/5 {
-				return c14Result{Verdict: "violation", Key: keyBase + "fast:spurious-timeout",
+			// budget: the move, then up to 8 goroutine hand-offs each as late as the probe saw
+			if samples > 0 && movedAt.Sub(enteredAt)+8*late+10*time.Millisecond <= c14T*9/10 {
+				return c14Result{Verdict: "violation", LoadSensitive: true, Key: keyBase + "fast:spurious-timeout",
 					What: fmt.Sprintf("agency holder moved %v after the state was entered (timeout %v) but a timeout error was reported at %v (probe lateness %v)",
 						movedAt.Sub(enteredAt), c14T, snap.ErrAt[i].Sub(enteredAt), late),
 					Obj: obj(snap, map[string]any{"probe_late": late.String()})}
@@ -421,7 +447,7 @@ func runC14Case(c c14Case, probe *noiseProbe) (res c14Result) {
 				what += "; the late message was processed instead"
 			}
 			_ = got
-			return c14Result{Verdict: "violation", Key: keyBase + "slow:no-timeout", What: what,
+			return c14Result{Verdict: "violation", LoadSensitive: true, Key: keyBase + "slow:no-timeout", What: what,
 				Obj: obj(snap, map[string]any{"probe_late": late.String(), "goroutines": goroutineDump()})}
 		}
 		if !r.waitDone(5 * time.Second) {
@@ -433,7 +459,7 @@ func runC14Case(c c14Case, probe *noiseProbe) (res c14Result) {
 			if !calm {
 				return discard("slow_noisy")
 			}
-			return c14Result{Verdict: "violation", Key: keyBase + "slow:late-message-processed",
+			return c14Result{Verdict: "violation", LoadSensitive: true, Key: keyBase + "slow:late-message-processed",
 				What: fmt.Sprintf("a message arriving %v after the state was entered (timeout %v) was still processed", c.Delta, c14T),
 				Obj:  obj(snap, nil)}
 		}
@@ -493,7 +519,7 @@ func runC14Case(c c14Case, probe *noiseProbe) (res c14Result) {
 
 func TestC14(t *testing.T) {
 	rec := evi.New(t, "C14", evi.Exploration,
-		"targets = every reachable state with agency of every exported state map x both roles (enumerated). The state map is copied and its timeouts scaled: T=150ms for the state(s) under test. Case kinds: slow (timed state, agency holder - raw peer or harness caller - moves after delta in [1.8T,2.5T]: a timeout error must be reported and the protocol must stop, the late message must not be processed), fast (delta in [0,0.5T]: no timeout error up to 1.6T after entry, i.e. also no stale timer), untimed (state without timeout reached quickly through states that all have timeout T: silence for 4T), initial (the initial state given timeout T: silence for 4T after Start), progress (all timed states T, 3-8 steps each after <= 0.5T: no timeout although the total exceeds T). First a sweep over all targets with deltas derived from the seed, then rapid-drawn batches; 8 cases run concurrently. Scheduling-noise guard: times are measured (hook event time of the state entry, time of the error, time of the move) and a probe goroutine measures wake-up lateness; a verdict that noise could explain is discarded and counted, never reported. Sound-under-load rule: a timeout error less than 0.9T after the last state change is always a violation. Non-trivial = a slow or fast or progress case that reached a verdict; distinct by (map, role, state, kind, delta bucket of 10ms).")
+		"targets = every reachable state with agency of every exported state map x both roles (enumerated). The state map is copied and its timeouts scaled: T=150ms for the state(s) under test. Case kinds: slow (timed state, agency holder - raw peer or harness caller - moves after delta in [1.8T,2.5T]: a timeout error must be reported and the protocol must stop, the late message must not be processed), fast (delta in [0,0.5T]: no timeout error up to 1.6T after entry, i.e. also no stale timer), untimed (state without timeout reached quickly through states that all have timeout T: silence for 4T), initial (the initial state given timeout T: silence for 4T after Start), progress (all timed states T, 3-8 steps each after <= 0.5T: no timeout although the total exceeds T). client (a real protocol client - block-fetch, chain-sync, handshake, keep-alive, leios-*, local-state-query, local-tx-monitor, local-tx-submission, peer-sharing, local-message-*, message-submission - whose timeout option is set to T is walked into the state the option belongs to and the server stalls: the timeout must fire, not before 0.9T). First a sweep over all targets with deltas derived from the seed, then the client table, then rapid-drawn batches; 8 cases run concurrently. Scheduling-noise guard: times are measured (hook event time of the state entry, time of the error, time of the move) and a probe goroutine measures wake-up lateness; a verdict that noise could explain is discarded and counted, never reported. Sound-under-load rule: a timeout error less than 0.9T after the last state change is always a violation. Non-trivial = a slow or fast or progress case that reached a verdict; distinct by (map, role, state, kind, delta bucket of 10ms).")
 	defer rec.Finish()
 	rec.Assume("the verif tracer emits the transition event before the state loop arms the timer of the new state",
 		"Go timers never fire early",
@@ -592,6 +618,46 @@ func TestC14(t *testing.T) {
 			record(sweep[i+k], res)
 			if res.Verdict == "violation" {
 				rec.Violation(res.Key, res.What, res.Obj)
+			}
+		}
+	}
+
+	// ---- the real protocol clients with their timeout options set to T
+	rcs := realClientCases()
+	rec.SetExtra("n_real_client_cases", len(rcs))
+	for i := 0; i < len(rcs); i += par {
+		j := i + par
+		if j > len(rcs) {
+			j = len(rcs)
+		}
+		out := make([]c14Result, j-i)
+		var wg sync.WaitGroup
+		for k := i; k < j; k++ {
+			wg.Add(1)
+			go func(k int) {
+				defer wg.Done()
+				out[k-i] = runRealClientCase(rcs[k], probe)
+			}(k)
+		}
+		wg.Wait()
+		for k, res := range out {
+			rc := rcs[i+k]
+			rec.Eval()
+			rec.Class("kind_client")
+			rec.Class("verdict_" + res.Verdict)
+			switch res.Verdict {
+			case "discard":
+				rec.Class("discard_" + res.Why)
+				if testing.Verbose() {
+					t.Logf("discarded (%s): client %s", res.Why, rc.Name)
+				}
+			case "violation":
+				rec.Violation(res.Key, res.What, res.Obj)
+			default:
+				if res.Named {
+					rec.Class("timeout_error_names_state")
+				}
+				rec.NonTrivial("client/"+rc.Name, map[string]any{"client": rc.Name, "state": rc.State, "configured_timeout": c14T.String(), "verdict": res.Verdict})
 			}
 		}
 	}
